@@ -114,3 +114,13 @@ def needs_extra(fam: str, profile: str) -> bool:
 
 def wants_weekend_regime(fam: str, profile: str) -> bool:
     return bool(PROFILES[fam][profile].get("wants_weekend_regime"))
+
+
+def sibling(fam: str, profile: str) -> str:
+    """Another profile of the family that differs where state could be shared by mistake: the season and weekday maps
+    (daily, billing), the scaler (hourly)."""
+    if fam in ("daily", "billing"):
+        return "default" if profile == "seasonmap" else "seasonmap"
+    if fam == "hourly":
+        return "robust" if profile == "seed1" else "seed1"
+    return profile
